@@ -43,7 +43,9 @@ OBJ_PATTERNS = {
     "A": lambda n: [1.0] * n,
     "B": lambda n: [1.0] + [0.0] * (n - 1),
     "C": lambda n: ([2.0] + [0.0] * (n - 2) + [-1.0]) if n >= 2 else [-1.0],
+    "D": lambda n: [1.0] * n,   # same coefficients as A plus a constant term (objective offset)
 }
+OBJ_CONST = {"A": 0.0, "B": 0.0, "C": 0.0, "D": 7.5}
 
 
 class Model:
@@ -56,7 +58,7 @@ class Model:
     def clone(self):
         m = Model()
         m.vars = [list(v) for v in self.vars]
-        m.obj = None if self.obj is None else (list(self.obj[0]), self.obj[1])
+        m.obj = None if self.obj is None else (list(self.obj[0]), self.obj[1], self.obj[2])
         m.qfix = list(self.qfix)
         m.qlb = list(self.qlb)
         return m
@@ -91,7 +93,7 @@ class Model:
         elif k == "addC":
             self.vars.append([0.0, 2.0, "C"])
         elif k == "obj":
-            self.obj = (OBJ_PATTERNS[op[1]](len(self.vars)), op[2])
+            self.obj = (OBJ_PATTERNS[op[1]](len(self.vars)), op[2], OBJ_CONST[op[1]])
         elif k == "fix":
             self.qfix.append((op[1], float(op[2])))
         elif k == "lb":
@@ -110,9 +112,9 @@ class Model:
         """(status, optimum or None) of the bound-only model"""
         if any(lb > ub for lb, ub, _ in self.vars):
             return "kInfeasible", None
-        coeffs, sense = self.obj if self.obj is not None else ([], "min")
+        coeffs, sense, const = self.obj if self.obj is not None else ([], "min", 0.0)
         coeffs = list(coeffs) + [0.0] * (len(self.vars) - len(coeffs))
-        tot = 0.0
+        tot = const
         for (lb, ub, _), c in zip(self.vars, coeffs):
             if sense == "min":
                 tot += c * (lb if c >= 0 else ub)
@@ -190,7 +192,10 @@ def _replay_history(sw, hist, viol, tags):
             co = OBJ_PATTERNS[op[1]](len(hv))
             if m.obj is not None:
                 nt = True
-            s.set_objective(s.quicksum(c * v for c, v in zip(co, hv)), sense=op[2])
+            expr = s.quicksum(c * v for c, v in zip(co, hv))
+            if OBJ_CONST[op[1]]:
+                expr = expr + OBJ_CONST[op[1]]
+            s.set_objective(expr, sense=op[2])
         elif k == "fix":
             s.queue_fix_variable(hv[op[1]], op[2])
             nt = True
@@ -237,7 +242,7 @@ def _replay_history(sw, hist, viol, tags):
                             return nt
                 allv = s.get_values({j: hv[j] for j in range(n)})
                 co = list(m.obj[0]) + [0.0] * (n - len(m.obj[0])) if m.obj else [0.0] * n
-                rec = sum(c * allv[j] for j, c in enumerate(co))
+                rec = sum(c * allv[j] for j, c in enumerate(co)) + (m.obj[2] if m.obj else 0.0)
                 if abs(rec - val) > 1e-6:
                     viol.append({"kind": "values_inconsistent", "msg": f"after {hist[:step + 1]}: objective recomputed from get_values {rec} != {val}"})
                     return nt
